@@ -44,6 +44,10 @@ class Knobs:
         self.p_modules = 0.3
         self.p_methods = 0.4
         self.p_crates = 0.3
+        # application-state inputs: singletons that the *user* builds (prebuilt types, configuration entries)
+        self.p_state_inputs = 0.5
+        # framework primitives (RequestHead, ConnectionInfo, AllowedMethods, RawPathParams, RawIncomingBody) as extra inputs
+        self.p_prims = 0.5
         self.__dict__.update(kw)
         if self.flavour == "observers":
             self.n_obs = (3, 6)
@@ -182,8 +186,13 @@ def gen_inclass(rng, knobs=None):
         spec["ctors"][cid] = c
         return c
 
+    with_inputs = rng.random() < kn.p_state_inputs
     for i, t in enumerate(names):
-        c = make_ctor("C%d" % i, t, names[:i], spec["types"][t]["lc"])
+        ty = spec["types"][t]
+        if with_inputs and ty["lc"] == "singleton" and rng.random() < 0.45:
+            c = make_state_input(rng, spec, "C%d" % i, t)
+        else:
+            c = make_ctor("C%d" % i, t, names[:i], ty["lc"])
         infallible[t] = (not c.get("fallible")) and all(infallible[u] for (u, _) in c["ins"])
 
     # ---- error handlers: at most one specific handler per error type + maybe a custom pavex::Error handler
@@ -438,6 +447,8 @@ def gen_inclass(rng, knobs=None):
         domainize(rng, spec)
     if kn.avoid_known:
         repair_known(spec)
+    if rng.random() < kn.p_prims:
+        add_prims(rng, spec)
     vary_cloning_representation(rng, spec)
     if rng.random() < kn.p_modules:
         modularize(rng, spec)
@@ -446,6 +457,52 @@ def gen_inclass(rng, knobs=None):
     if rng.random() < kn.p_methods:
         methodize(rng, spec)
     return spec
+
+
+def make_state_input(rng, spec, cid, t):
+    """A singleton that the user builds and hands to `ApplicationState::new`: a prebuilt type (`#[pavex::prebuilt]`,
+    never cloned unless it says so) or a configuration entry (`#[pavex::config(key = ..)]`, a field of the generated
+    `ApplicationConfig`; must be Clone; cloned if necessary unless it says `never_clone`). In the spec it is a
+    constructor without inputs whose `input` key says how it is written; `cloning` is always the policy in effect."""
+    ty = spec["types"][t]
+    kind = rng.choice(["prebuilt", "config"])
+    c = {"out": t, "ins": [], "lc": "singleton", "input": kind}
+    if ty["disc"] == "cloneable":
+        eff = "cin"
+    elif ty["disc"] == "copy":
+        eff = rng.choice(["cin", "never"])
+    else:
+        eff = "never"
+    c["cloning"] = eff
+    if kind == "config":
+        ty["clone"] = True
+        c["key"] = "k_%s" % t.lower()
+        if eff == "cin" and rng.random() < 0.6:
+            c["ann_cloning"] = None        # the default of configuration entries
+        if rng.random() < 0.3:
+            c["include_if_unused"] = True
+    elif eff == "never" and rng.random() < 0.6:
+        c["ann_cloning"] = None            # the default of prebuilt types
+    spec["ctors"][cid] = c
+    return c
+
+
+def add_prims(rng, spec):
+    """Framework primitives as extra inputs of any request-time component (and of request-scoped / transient
+    constructors): shared references only (clause a), except the raw body, which one handler may take by value."""
+    borrowable = ["head", "conn", "allowed", "rawparams"]
+    for group in ("handlers", "mws", "fallbacks", "ehs", "obs"):
+        for xid, x in spec[group].items():
+            if rng.random() < 0.35:
+                pool = [p for p in borrowable if not (group == "fallbacks" and p == "allowed") and not (p == "rawparams" and x.get("raw_params"))]
+                x["prims"] = sorted(rng.sample(pool, rng.choice([1, 1, 2])))
+    for cid, c in spec["ctors"].items():
+        if c["lc"] != "singleton" and not c.get("generic_param") and not c.get("input") and rng.random() < 0.25:
+            c["prims"] = sorted(rng.sample(["head", "conn", "rawparams"], rng.choice([1, 1, 2])))
+    hs = [h for h in spec["handlers"].values()]
+    if hs and rng.random() < 0.5:
+        h = rng.choice(hs)
+        h["prims"] = sorted(set(h.get("prims", []) + ["body"]))
 
 
 def crateize(rng, spec):
@@ -457,7 +514,7 @@ def crateize(rng, spec):
     moved = set()
     ctors = []
     for cid, c in spec["ctors"].items():
-        if c.get("generic_param") or c.get("module") or c["out"] not in plain:
+        if c.get("generic_param") or c.get("module") or c.get("input") or c["out"] not in plain:
             continue
         # constructors come in dependency order: all inputs of a moved constructor must have moved before it
         if all(t in moved for (t, _m) in c["ins"]) and rng.random() < 0.65:
@@ -493,7 +550,7 @@ def methodize(rng, spec, p=0.5):
         return bool(ins) and plain(ins[0][0]) and (in_dep or ins[0][0] not in dep["types"])
 
     for cid, c in spec["ctors"].items():
-        if c.get("generic_param") or c.get("module") or not plain(c["out"]) or rng.random() >= p:
+        if c.get("generic_param") or c.get("module") or c.get("input") or not plain(c["out"]) or rng.random() >= p:
             continue
         in_dep = cid in dep["ctors"]
         if not in_dep and c["out"] in dep["types"]:
@@ -559,7 +616,7 @@ def modularize(rng, spec):
     """Put some constructors into modules under a shared function name (`m3::connect`, `m7::connect`): every name the
     compiler derives from the function name (state fields, error variants, ...) then needs disambiguation."""
     names = ["connect", "build", "new"]
-    cids = [cid for cid, c in spec["ctors"].items() if not c.get("generic_param")]
+    cids = [cid for cid, c in spec["ctors"].items() if not c.get("generic_param") and not c.get("input")]
     rng.shuffle(cids)
     # fallible singletons first: their errors become variants of the application state error
     cids.sort(key=lambda cid: 0 if (spec["ctors"][cid]["lc"] == "singleton" and spec["ctors"][cid].get("fallible")) else 1)
@@ -815,7 +872,8 @@ def certificate(spec):
 def shape_signature(spec):
     """Canonical, name-erased shape used to count distinct cases."""
     import hashlib
-    nodes = sorted((t["lc"], t.get("disc", ""), bool(spec["ctors"].get("C%s" % n[1:], {}).get("fallible"))) for n, t in spec["types"].items())
+    nodes = sorted((t["lc"], t.get("disc", ""), bool(spec["ctors"].get("C%s" % n[1:], {}).get("fallible")), spec["ctors"].get("C%s" % n[1:], {}).get("input") or "")
+                   for n, t in spec["types"].items())
     def lc_of(t):
         return spec["types"].get(t.split("<")[0], {}).get("lc", "generic")
     edges = sorted((lc_of(c["out"]), lc_of(t), mo) for c in spec["ctors"].values() for (t, mo) in c["ins"])
